@@ -140,6 +140,7 @@ func Load(root string) (*Prog, error) {
 		}
 	}
 	p.canonicaliseAll()
+	theProg = p
 	for _, fn := range p.Funcs {
 		for _, d := range []*ast.FuncDecl{fn.Orig, fn.Decl} {
 			if d == nil || d.Body == nil {
